@@ -2,9 +2,19 @@
 //!
 //! usage: tsgv <ID> <quick|thorough>
 //!        tsgv <ID> --replay <file>
+//!        tsgv gen <profile> <seed-words...>     (debugging aid: print a generated program)
 
+mod cval;
+mod dsl;
 mod engine;
+mod gen;
+mod interp;
+mod lib_api;
+mod pool;
 mod props;
+mod pysrc;
+mod stdlib;
+mod tree;
 
 fn usage() -> ! {
     eprintln!("usage: tsgv <ID> <quick|thorough> | tsgv <ID> --replay <file>");
@@ -18,28 +28,34 @@ fn main() {
     }
     let id = args[1].as_str();
     engine::install_panic_hook();
+    if id == "gen" {
+        let words: Vec<u32> = args[3..].iter().filter_map(|s| s.parse().ok()).collect();
+        let mut t = engine::Tape::new(&words);
+        let cfg = match args[2].as_str() {
+            "fragment" => gen::GenCfg::fragment(),
+            _ => gen::GenCfg::full(),
+        };
+        let g = gen::generate(&mut t, &cfg);
+        println!("{}", dsl::print_canonical(&g.prog).text);
+        println!("; globals: {:?}", g.globals);
+        println!("; features: {:?} fault: {:?}", g.features, g.fault);
+        return;
+    }
     engine::silence_stderr();
+    let entry = match props::PROPS.iter().find(|p| p.id == id) {
+        Some(e) => e,
+        None => {
+            println!("unknown property {}", id);
+            std::process::exit(2);
+        }
+    };
     let code = if args[2] == "--replay" {
         if args.len() < 4 {
             usage();
         }
-        let path = args[3].as_str();
-        match id {
-            "C17" => engine::replay_file(id, path, props::c17::case),
-            _ => {
-                println!("unknown property {}", id);
-                2
-            }
-        }
+        engine::replay_file(id, &args[3], entry.case)
     } else {
-        let tier = args[2].as_str();
-        match id {
-            "C17" => props::c17::run(tier),
-            _ => {
-                println!("unknown property {}", id);
-                2
-            }
-        }
+        (entry.run)(args[2].as_str())
     };
     std::process::exit(code);
 }
